@@ -7,6 +7,7 @@
 // (a) explicit-state search of the real node (chainsim): replaying BlockConnected / BlockDisconnected from the
 //     base tip reproduces the node's tip after every event; callbacks carry the blocks actually (dis)connected.
 #include <vx/sched.h>
+#include <vx/tsanaux.h>
 #include <kits/chainsim_main.h>
 #include <scheduler.h>
 #include <validationinterface.h>
@@ -217,6 +218,7 @@ int main(int argc, char** argv)
         E.sample("ValidationSignals " + c.str() + ": " + std::to_string(r.executions) + " schedules with <= " + std::to_string(o.max_preempt) + " preemptions, " + std::to_string(r.distinct_outcomes) + " distinct callback orders", 16);
         if (r.violations) break;
     }
+    if (vx::ctx().replay.empty()) vx::RunTsanAux(argv[0], big ? 60 : 6, big ? 300 : 40, {"SerialTaskRunner", "CScheduler", "ValidationSignals", "b::Sub"}, "C63c");
     E.states += total_points;
     E.transitions += total_points;
     E.traces_validated += total_exec;
